@@ -165,6 +165,25 @@ void h_TPGFP_call3(void)
   REACH("exit");
 }
 
+/* ---------------------------------------------------------------------------------------------
+ * clear(): "Purges all terms."  C02 ("both evaluation paths"): a purged part has no terms, so its on-demand value would be 0 -- it must
+ * stop reporting Computed, so that operator() (contract above: throws iff Status != Computed) refuses instead of answering 0 for a
+ * quadruple whose table entry is non-zero.  Both lists are emptied, nothing else is written. */
+//@function Pomerol::TwoParticleGFPart::clear() as TwoParticleGFPart_clear
+//@contract
+__CPROVER_requires(__CPROVER_is_fresh(self, sizeof(*self)))
+__CPROVER_assigns(self->NonResonantTerms.n_calls, self->ResonantTerms.n_calls, self->Status)
+__CPROVER_ensures(self->NonResonantTerms.n_calls == 0 && self->ResonantTerms.n_calls == 0)
+__CPROVER_ensures(self->Status == Constructed)
+//@end
+//@harness h_TPGFP_clear enforce=TwoParticleGFPart_clear props=C02 min_obl=67 reach=1 timeout=120
+void h_TPGFP_clear(void)
+{
+  struct TwoParticleGFPart *p;
+  TwoParticleGFPart_clear(p);
+  REACH("exit");
+}
+
 /* =============================================================================================
  * The two kinds of terms themselves (TwoParticleGFPart.h).  All pins: doubles are uninterpreted (congruence), the spec expression is
  * written in the operand order of the documentation.
